@@ -283,6 +283,7 @@ def run(prop, tier):
             system = emusrv.System(spec, require=req, extra_meta=g.extra_meta)
             td = system.write(scratch.sub("trace-" + g.name))
             pool = ServerPool(exe, td, ["-l"])
+            pool.meta = system.meta if "system" in dir() else None
             try:
                 sidx = {t: pool.local.streams[layout.threads[t]["rel"]] for t in layout.tnames}
                 hs = pool.local.streams["loom.A/proc.100/thread.103"]
